@@ -84,6 +84,13 @@ class C17BFO(BitField[8]):
 
 
 # two different bitfields of the same width used as sub-bitfields (offset form and range form)
+class C17Ovl(BitField[8]):
+    b0: Field[0]
+    lo: Field[3:0]
+    hi: Field[7:4]
+    all: Field[7:0]
+
+
 class C17Ctl(BitField[4]):
     en: Field[0]
     mode: Field[3:1].Unsigned
@@ -172,6 +179,10 @@ def cells():
     cs.append(Cell("serialized|from_raw.value.b", [("a", BV(3))], U(2), "{o} <<= std.Serialized[C17R1].from_raw({a}).value().b", lambda P, a: field(P, a, 1, 2), setup=SETUP))
     cs.append(Cell("serialized|from_raw.bits", [("a", BV(3))], BV(3), "{o} <<= std.Serialized[C17R1].from_raw({a}).bits()", lambda P, a: a, setup=SETUP))
     cs.append(Cell("serialized|ctor.bits", [("a", BIT), ("b", U(2))], BV(3), "{o} <<= std.Serialized[C17R1](C17R1({a}, {b})).bits()", lambda P, a, b: a + b * 2, setup=SETUP))
+    # copy construction from another Serialized keeps the raw bits
+    cs.append(Cell("serialized|copy.bits|record", [("a", BV(3))], BV(3), "{o} <<= std.Serialized[C17R1](std.Serialized[C17R1].from_raw({a})).bits()", lambda P, a: a, setup=SETUP))
+    cs.append(Cell("serialized|copy.value.b|record", [("a", BV(3))], U(2), "{o} <<= std.Serialized[C17R1](std.Serialized[C17R1].from_raw({a})).value().b", lambda P, a: field(P, a, 1, 2), setup=SETUP))
+    cs.append(Cell("serialized|copy.bits|unsigned", [("a", U(3))], BV(3), "{o} <<= std.Serialized[Unsigned[3]](std.Serialized[Unsigned[3]]({a})).bits()", lambda P, a: a, setup=SETUP))
     cs.append(Cell("serialized|ctor.value.a", [("a", BIT), ("b", U(2))], BIT, "{o} <<= std.Serialized[C17R1](C17R1({a}, {b})).value().a", lambda P, a, b: a, setup=SETUP))
     # BitField: reads touch exactly the declared range
     n = 6
@@ -320,6 +331,20 @@ def write_cells():
                    "c17raw = std.Variable[BitVector[3]]({a})\nc17work = std.from_bits[C17R1](c17raw, std.Variable)\nc17work.a @= {b}\n{o} <<= c17raw", lambda P, a, b: a, setup=SETUP))
     cs.append(Cell("snapshot|from_bits(raw variable, std.Variable) keeps its own value", [("a", BV(3)), ("b", BV(3))], BIT,
                    "c17raw = std.Variable[BitVector[3]]({a})\nc17work = std.from_bits[C17R1](c17raw, std.Variable)\nc17raw @= {b}\n{o} <<= c17work.a", lambda P, a, b: field(P, a, 0, 1), setup=SETUP))
+    # ... also for bare vectors and enums held in variables
+    for tk, tsrc in (("BitVector", "BitVector[3]"), ("Unsigned", "Unsigned[3]"), ("Signed", "Signed[3]")):
+        view = {"BitVector": "", "Unsigned": ".unsigned", "Signed": ".signed"}[tk]
+        cs.append(Cell(f"snapshot|to_bits({tk} variable)", [("a", BV(3)), ("b", BV(3))], BV(3),
+                       f"c17v = std.Variable[{tsrc}]({{a}}{view})\nc17snap = std.to_bits(c17v)\nc17v @= {{b}}{view}\n{{o}} <<= c17snap", lambda P, a, b: a, setup=SETUP))
+    cs.append(Cell("snapshot|to_bits(enum variable)", [("a", BV(2)), ("b", BV(2))], BV(2),
+                   "c17e = std.from_bits[C17E]({a}, std.Variable)\nc17snap = std.to_bits(c17e)\nc17e @= std.from_bits[C17E]({b})\n{o} <<= c17snap", lambda P, a, b: a, setup=SETUP))
+    # dict form of a BitField assignment: entries are applied in the order of the dict (later entries win on overlapping fields)
+    cs.append(Cell("bitfield-write|dict form, overlapping fields", [("a", BV(8)), ("n", BV(4)), ("t", BIT)], BV(8),
+                   '{o} <<= Null\nc17bf = C17Ovl({o})\nc17bf <<= {{"all": {a}, "lo": {n}, "b0": {t}}}',
+                   lambda P, a, n, t: setb(P, setb(P, a, 3, 0, n, 8), 0, 0, t, 8), setup=SETUP))
+    cs.append(Cell("bitfield-write|dict form, other order", [("a", BV(8)), ("n", BV(4)), ("t", BIT)], BV(8),
+                   '{o} <<= Null\nc17bf = C17Ovl({o})\nc17bf <<= {{"b0": {t}, "lo": {n}, "hi": {a}[7:4]}}',
+                   lambda P, a, n, t: setb(P, setb(P, P.const(0), 7, 4, P.shr(a, 4), 8), 3, 0, n, 8), setup=SETUP))
     # a qualified BitField: nested fields address the bits of the one register
     cs.append(Cell("bitfield-signal|nested write", [("z", BV(8)), ("v", BV(3))], BV(8),
                    "c17reg = std.Signal[C17BFO]({z})\nc17reg.inner.mid <<= {v}\n{o} <<= std.to_bits(c17reg)", lambda P, z, v: z, setup=SETUP, note="signal assignment: old value this step"))
